@@ -49,6 +49,7 @@ def write_roms(
     dtype="f8",
     packed=None,  # dict name -> scale_factor (stored as i2)
     time_units: str = "seconds since 2000-01-01 00:00:00",
+    time_ref_shift: int = 0,  # the file's own time reference is EPOCH + this many seconds (values shift the other way)
     grid_only: bool = False,
 ) -> Path:
     path = Path(path)
@@ -92,8 +93,13 @@ def write_roms(
             return path
 
         x = nc.createVariable("ocean_time", "f8", ("ocean_time",))
-        x.units = time_units
-        x[:] = np.asarray(times, dtype=float)
+        if time_ref_shift:
+            ref = str(EPOCH + np.timedelta64(int(time_ref_shift), "s")).replace("T", " ")
+            x.units = f"seconds since {ref}"
+            x[:] = np.asarray(times, dtype=float) - float(time_ref_shift)
+        else:
+            x.units = time_units
+            x[:] = np.asarray(times, dtype=float)
 
         packed = packed or {}
 
